@@ -216,25 +216,47 @@ Definition search_suffix (r : re) (s : list N) : bool :=
   | None => false
   end.
 
-(* strings.Cut(s, "=") *)
-Fixpoint cut_eq (s : list N) : option (list N * list N) :=
+(* strings.Cut(s, sep) for a one-byte separator *)
+Fixpoint cut_byte (b : N) (s : list N) : option (list N * list N) :=
   match s with
   | [] => None
-  | c :: t => if (c =? 61)%N then Some ([], t)
-              else match cut_eq t with Some (a, b) => Some (c :: a, b) | None => None end
+  | c :: t => if (c =? b)%N then Some ([], t)
+              else match cut_byte b t with Some (x, y) => Some (c :: x, y) | None => None end
   end.
+Definition cut_eq : list N -> option (list N * list N) := cut_byte 61.
 
-Definition so_rewrite (s : list N) : list N :=
+Definition byte_in (chars : string) (c : N) : bool := existsb (N.eqb c) (bytes_of_string chars).
+
+(* the so: block of ResolvePackageNameVersionPin, by the shape goextract read from the source
+   (Generated.C03Version.so_rewrite_shape):
+   SoOperatorRun chars ins (since fix C03-F2, commit 0f275a6): i := strings.IndexAny(pkgName, chars); j := end of the run of
+     such characters starting at i; unless pkgName[j:] ends in a release suffix, pkgName = pkgName[:j] + ins + pkgName[j:];
+   SoCutAt sep ins (before): name, v, found := strings.Cut(pkgName, sep); unless v ends in a release suffix,
+     pkgName = name + ins + v. *)
+Definition so_rewrite_with (shape : so_shape) (s : list N) : list N :=
   match strip_prefix (bytes_of_string "so:") s with
   | None => s
   | Some _ =>
-      match cut_eq s with
-      | Some (name, v) =>
-          if search_suffix ends_with_release_re v then s
-          else name ++ bytes_of_string "=0." ++ v
-      | None => s
+      match shape with
+      | SoOperatorRun chars ins =>
+          let (name, r1) := span (fun c => negb (byte_in chars c)) s in
+          let (ops, v) := span (byte_in chars) r1 in
+          match ops with
+          | [] => s
+          | _ => if search_suffix ends_with_release_re v then s
+                 else name ++ ops ++ bytes_of_string ins ++ v
+          end
+      | SoCutAt sep ins =>
+          match (match bytes_of_string sep with [b] => cut_byte b s | _ => None end) with
+          | Some (name, v) =>
+              if search_suffix ends_with_release_re v then s
+              else name ++ bytes_of_string ins ++ v
+          | None => s
+          end
       end
   end.
+
+Definition so_rewrite : list N -> list N := so_rewrite_with so_rewrite_shape.
 
 (* sub-match boundaries of packageNameRegex on a string it accepts: the name is
    the maximal run of name characters; the operator run is maximal unless that
